@@ -242,10 +242,33 @@ func drawPKI(t *rapid.T) *pki {
 			}
 		}
 	}
+	// deep chain with a cross-certified anchor (about 1 case in 6): leaf <- B <- A <- R, where R's name and key also
+	// appear in a cross-certificate X held among the intermediates. At the last level chain building then has two
+	// acceptable parents for the same three-certificate prefix, and every chain it returns must still end in a root.
+	var deepIssuer *ent
+	if gen.OneIn(t, "deepcross", 6) && len(p.certs) < 6 {
+		r := ents[0]
+		a, b := ent{name: 5, key: 30}, ent{name: 6, key: 31}
+		plain := func(role string, e, is ent) *spec {
+			s := &spec{id: id, role: role, subj: e.name, key: e.key, issuer: is.name, signer: is.key, validity: "ok", bcValid: true, isCA: true, maxPath: -1}
+			id++
+			return s
+		}
+		p.certs = append(p.certs, plain("inter", a, r), plain("inter", b, a))
+		other := ent{name: 3, key: 41} // an issuer nobody trusts
+		if nRoots > 1 && rapid.Bool().Draw(t, "crossByRoot") {
+			other = ents[1]
+		}
+		p.certs = append(p.certs, plain("inter", r, other))
+		deepIssuer = &b
+	}
 	// leaf
 	is := ents[rapid.IntRange(0, len(ents)-1).Draw(t, "leafIssuer")]
 	if nEnt > 0 && rapid.Bool().Draw(t, "leafUnderInter") {
 		is = ents[nRoots+rapid.IntRange(0, nEnt-1).Draw(t, "leafInterIssuer")]
+	}
+	if deepIssuer != nil {
+		is = *deepIssuer
 	}
 	leaf := &spec{id: id, role: "leaf", subj: 9, key: 50, issuer: is.name, signer: is.key, maxPath: -1}
 	leaf.validity = valGen.Draw(t, "leafval")
